@@ -24,15 +24,45 @@ ExpectedRuns(r) ==
       segs == SelectSeq(p, LAMBDA s : s.origin # s.target) IN
   [j \in 1..Len(segs) |-> [nf |-> segs[j].nf, from |-> segs[j].origin, to |-> segs[j].target]]
 
+(* The value clause.  Steps(r) is what the path dictated by the matching scales requires:   *)
+(* per-patch runs (zero-length ones dropped) interleaved with the decoupling steps.  The      *)
+(* harness asks TLC for Steps(r) first (PlanInv), composes exactly these steps with the      *)
+(* library's own primitives (Couplings.compute of a fresh object, the coefficient tables     *)
+(* judged in DecouplingTrace) and reports in r.val whether the value Couplings.a returned     *)
+(* equals that composition (class "eq": relative difference <= 1e-12).  This clause does not   *)
+(* depend on how the implementation organises its internal calls.                             *)
+RECURSIVE StepsFrom(_, _)
+StepsFrom(p, j) ==
+  IF j > Len(p) THEN <<>>
+  ELSE LET run == IF p[j].origin # p[j].target
+                  THEN <<[k |-> "run", nf |-> p[j].nf, a |-> p[j].origin, b |-> p[j].target, q |-> 0, dir |-> "-"]>>
+                  ELSE <<>>
+           dec == IF j < Len(p)
+                  THEN LET hq == Max(p[j].nf, p[j + 1].nf) IN
+                       <<[k |-> "dec", nf |-> hq - 1, a |-> 0, b |-> 0, q |-> hq - 4,
+                          dir |-> IF p[j + 1].nf < p[j].nf THEN "down" ELSE "up"]>>
+                  ELSE <<>>
+       IN run \o dec \o StepsFrom(p, j + 1)
+Steps(r) == StepsFrom(Path(r.ms, Pt(r.ref), Pt(r.target)), 1)
+PlanInv == i <= Len(TLog) => PrintT(<<"PLAN", i, Steps(TLog[i])>>)
+
+(* how the implementation organised its calls: conformance grade only *)
+Conformance(r) ==
+  IF Len(r.dec) # Len(ExpectedDec(r)) THEN "CONF:number-of-decoupling-steps"
+  ELSE IF \E j \in 1..Len(r.dec) : r.dec[j].quark # ExpectedDec(r)[j].quark THEN "CONF:matching-scale-of-the-wrong-quark"
+  ELSE IF \E j \in 1..Len(r.dec) : r.dec[j].dir # ExpectedDec(r)[j].dir THEN "CONF:decoupling-direction"
+  ELSE IF \E j \in 1..Len(r.dec) : r.dec[j].arg # ExpectedDec(r)[j].arg THEN "CONF:decoupling-coefficients-for-wrong-nf"
+  ELSE IF r.runs # ExpectedRuns(r) THEN "CONF:per-patch-running-differs-from-path"
+  ELSE "ok"
+
 Verdict(r) ==
   IF r.exc # "" THEN "C16:query-raised:" \o r.exc
-  ELSE IF Len(r.dec) # Len(ExpectedDec(r)) THEN "C16:number-of-decoupling-steps"
-  ELSE IF \E j \in 1..Len(r.dec) : r.dec[j].quark # ExpectedDec(r)[j].quark THEN "C16:matching-scale-of-the-wrong-quark"
-  ELSE IF \E j \in 1..Len(r.dec) : r.dec[j].dir # ExpectedDec(r)[j].dir THEN "C16:decoupling-direction"
-  ELSE IF \E j \in 1..Len(r.dec) : r.dec[j].arg # ExpectedDec(r)[j].arg THEN "C16:decoupling-coefficients-for-wrong-nf"
-  ELSE IF r.runs # ExpectedRuns(r) THEN "C16:per-patch-running-differs-from-path"
+  ELSE IF r.val # "eq" THEN "C16:value-differs-from-composition-along-the-path"
   ELSE "ok"
 Inv == i <= Len(TLog) =>
-         LET v == Verdict(TLog[i]) IN v = "ok" \/ PrintT(<<"BAD", i, v>>)
+         LET v == Verdict(TLog[i])
+             c == IF TLog[i].exc = "" THEN Conformance(TLog[i]) ELSE "ok" IN
+         /\ (v = "ok" \/ PrintT(<<"BAD", i, v>>))
+         /\ (c = "ok" \/ PrintT(<<"CONF", i, c>>))
 Post == TLCGet("stats").diameter = Len(TLog) + 1
 =============================================================================
